@@ -1075,7 +1075,7 @@ class Ev:
             try:
                 m2 = self.repo.mod(rel)
             except Exception:
-                m2 = None
+                m2 = self.repo._by_modname.get(m)  # a package: its __init__ module
             if m2 is not None:
                 if orig in m2.functions:
                     return FuncV(m2.functions[orig], mod=m2)
@@ -1183,6 +1183,10 @@ class Ev:
                 return self.bind(fn, owner, v)
             raise AnalysisError("enum attribute .%s" % attr)
         if isinstance(v, ModRef):
+            if v.name in ("math", "numpy", "np", "npy") and attr in ("pi", "e", "tau", "inf"):
+                import math as _math
+
+                return {"pi": _math.pi, "e": _math.e, "tau": _math.tau, "inf": _math.inf}[attr]  # the constants of the numeric libraries
             rm = self.repo._by_modname.get(v.name)
             if rm is not None:
                 # a module of the repository reached through its name: its classes, functions and constants
@@ -1599,6 +1603,11 @@ class Ev:
             sym = {ast.Add: "+", ast.Sub: "-", ast.Mult: "*", ast.Div: "/", ast.FloorDiv: "//", ast.Mod: "%", ast.Pow: "**", ast.MatMult: "@"}.get(type(op))
             if sym is not None:
                 return Term(sym, [a, b])
+        if isinstance(a, (int, float)) and isinstance(b, (int, float)) and not isinstance(a, bool) and not isinstance(b, bool) and (isinstance(a, float) or isinstance(b, float)) and type(op) in (ast.Add, ast.Sub, ast.Mult, ast.Div, ast.FloorDiv, ast.Mod, ast.Pow):
+            try:
+                return {ast.Add: lambda: a + b, ast.Sub: lambda: a - b, ast.Mult: lambda: a * b, ast.Div: lambda: a / b, ast.FloorDiv: lambda: a // b, ast.Mod: lambda: a % b, ast.Pow: lambda: a ** b}[type(op)]()
+            except ZeroDivisionError:
+                raise _Raise(node, "division by zero", "ZeroDivisionError")
         if is_numeric(a) and is_numeric(b) and (isinstance(a, (Sym, Term)) or isinstance(b, (Sym, Term))):
             sym = {ast.Add: "+", ast.Sub: "-", ast.Mult: "*", ast.Div: "/", ast.FloorDiv: "//", ast.Mod: "%", ast.Pow: "**"}.get(type(op))
             if sym is None:
